@@ -83,6 +83,9 @@ macroequal(struct macro *m1, struct macro *m2)
 	for (t1 = m1->token, t2 = m2->token; t1 < m1->token + m1->ntoken; ++t1, ++t2) {
 		if (t1->kind != t2->kind)
 			return false;
+		/* same white-space separation; space before the first token is not part of the list */
+		if (t1 != m1->token && t1->space != t2->space)
+			return false;
 		if (t1->lit && strcmp(t1->lit, t2->lit) != 0)
 			return false;
 	}
